@@ -223,10 +223,14 @@ class Ctx:
     # -- engines
     def engine(self, kind='lib', **kw):
         if kind not in self.engines:
-            path, th = ensure_mir(kind)
+            kinds = kind if isinstance(kind, tuple) else (kind,)
+            paths = []
+            for k in kinds:
+                path, th = ensure_mir(k)
+                paths.append(path)
             self.tree = th
             t = time.time()
-            self.engines[kind] = Engine(path, repo=REPO, **kw)
+            self.engines[kind] = Engine(paths, repo=REPO, **kw)
             log('[%s] engine over %s MIR of tree %s loaded in %.1fs' % (self.pid, kind, th, time.time() - t))
         return self.engines[kind]
 
